@@ -572,6 +572,7 @@ struct Driver
         load_known();
         if (!runs) runs = eng->default_runs(prop, tier);
         if (!det_set) det_runs = tier ? 2000 : 200;
+        item_timeout = tier ? 60 : 10; // CPU seconds per item; the thorough tier has items that legitimately take 25 s
         if (max_seconds <= 0) max_seconds = tier ? 1500 : 45; // wall-clock cap: only stops scheduling further runs, reported when hit
         double deadline = max_seconds > 0 ? t0 + max_seconds : 0;
         BatchOut bo;
